@@ -672,6 +672,8 @@ func (e *Engine) scanContractWrites(callee *ssa.Function, c *Contract, cc *ssa.C
 			w.maps = true
 		case strings.HasPrefix(a, "ghost("):
 			w.ghost = true
+		case strings.HasPrefix(a, "log("):
+			w.anyCall = true
 		case a == "heap":
 			w.all = true
 		case strings.HasPrefix(a, "fields("):
@@ -865,7 +867,7 @@ func (e *Engine) debugRef(st *State, fr *Frame, x *ssa.DebugRef) {
 	if obj == nil {
 		return
 	}
-	if _, ok := obj.(*types.Var); !ok {
+	if v, ok := obj.(*types.Var); !ok || v.IsField() {
 		return
 	}
 	if _, isFn := x.X.(*ssa.Function); isFn {
